@@ -179,7 +179,7 @@ struct ManIO<PlainG<G>> {
   }
 };
 
-inline const char* const kManFn[] = {"rplus", "rminus", "dof", "cast", "copy", "rplus_rminus_chain", "member"};
+inline const char* const kManFn[] = {"rplus", "rminus", "dof", "cast", "copy", "rplus_rminus_chain", "member", "wrap_in_any"};
 constexpr int kManNFn = sizeof(kManFn) / sizeof(kManFn[0]);
 
 template<class X, class Tag>
@@ -242,6 +242,19 @@ struct ManOps {
           out.tag("n/a");
         }
         break;
+      case 7: {
+        // CONSTRUCTION of a type-erased wrapper from the shared const object, inside the run: for every
+        // manifold model of the registry this is the first time the wrapper meets that type (whatever
+        // AnyManifold keeps per wrapped type is initialised here, by several threads, for several types)
+        const smooth::AnyManifold w(a);
+        out.i64(w.dof());
+        const smooth::AnyManifold w2 = w.rplus(t);
+        put_mat(out, w2.rminus(w));
+        IO::put(out, w2.template get<M>());
+        const smooth::AnyManifold wb(b);
+        put_mat(out, wb.rminus(w));
+        break;
+      }
       default: out.tag("?"); break;
     }
   }
